@@ -76,7 +76,7 @@ def run(ctx):
     step = 0x110000 // 32
     jobs = [(lo, min(lo + step, 0x110000), sub) for lo in range(0, 0x110000, step) for sub in (False, True)]
     with mp.Pool(16) as pool:
-        parts = pool.map(_sweep, jobs)
+        parts = lib.safe_map(pool, _sweep, jobs)
     found = False
     rep = 0
     accepted = {(n, sub): set() for n in table for sub in (False, True)}
